@@ -19,7 +19,7 @@ Verdict(row, r, k, x, g) ==
         go == [key \in DOMAIN y.g |-> Pick(row.grecs, y.g[key])]
         failed == Failed(x, q, o) gf == GitFailed(g, q, go)
     IN [row |-> r, q |-> k, failed |-> SetToSeq(failed), gitfailed |-> SetToSeq(gf),
-        culprits |-> IF failed = {} THEN <<>> ELSE SetToSeq(Culprits(x, q, o)),
+        culprits |-> [n \in failed \cap PerImplLaws |-> SetToSeq(Culprits(n, x, q, o))],
         gitculprits |-> IF gf = {} THEN <<>>
                         ELSE SetToSeq({key \in DOMAIN go : GitFailed(g, q, [z \in {key} |-> go[key]]) # {}}),
         drift |-> SetToSeq(DriftKeys(x, q, o))]
